@@ -12,13 +12,13 @@ import (
 )
 
 // C15 — client-supplied return targets never redirect off-site. E2: every
-// string of up to 3 (quick) / 4 (thorough) tokens over a 20-token alphabet x
+// string of up to 3 (quick) / 4 (thorough) tokens over a 22-token alphabet x
 // delivery (form field / query) x response mode x site scheme on the password
 // login; the 3-token set on the OTP, TOTP, SMS flows and on the OAuth2 round
 // trip. The emitted Location header / JSON location is resolved with a
 // browser-faithful resolver (urlres.go) against the login page URL.
 
-var c15Sigma = []string{"/", "\\", "//", "http:", "https:", "HtTpS:", "javascript:", "evil.test", "site.test", "@", ":", ".", "a", "?", "#", "%2f", "%5c", "\t", "\n", " "}
+var c15Sigma = []string{"/", "\\", "//", "http:", "https:", "HtTpS:", "javascript:", "evil.test", "site.test", "@", ":", ".", "a", "?", "#", "%2f", "%5c", "\t", "\n", " ", "./", "../"}
 
 type c15Flow struct {
 	name    string
@@ -26,7 +26,7 @@ type c15Flow struct {
 	// prepare brings browser B1 to the state just before the final request.
 	prepare func(s *world.Stack, w *world.World)
 	// final builds the last request carrying the return target.
-	final func(s *world.Stack, w *world.World, target string, viaQuery bool) []world.Req
+	final     func(s *world.Stack, w *world.World, target string, viaQuery bool) []world.Req
 	queryOnly bool
 }
 
@@ -237,7 +237,7 @@ func c15Units(tier string) []engine.Unit {
 					continue
 				}
 				firsts := len(c15Sigma)
-				group := 5 // first tokens per unit
+				group := 6 // first tokens per unit
 				if maxTok == 4 {
 					group = 1
 				}
@@ -276,9 +276,9 @@ func c15Units(tier string) []engine.Unit {
 func init() {
 	engine.Register(&engine.Property{
 		ID: "C15", Level: "exploration",
-		Rule: "every string of up to 3 (4 in the thorough tier for the login and OAuth2 flows) tokens over a 20-token alphabet (slashes, backslashes, schemes in mixed case, javascript:, hosts, @ : . ? #, percent-encoded separators, TAB, LF, space) as the return target of each flow that follows it (password, OTP, TOTP, SMS, hijack round trip, OAuth2 round trip), delivered as form field and as query, form and JSON modes, http and https site; Location / JSON location resolved with a WHATWG-faithful resolver; classes = (target class => response class) pairs",
-		Units: c15Units,
-		Need:  []string{"target:off-site-host=>response:same-site", "target:same-site=>response:same-site"},
+		Rule:        "every string of up to 3 (4 in the thorough tier for the login and OAuth2 flows) tokens over a 22-token alphabet (slashes, backslashes, schemes in mixed case, javascript:, hosts, @ : . ? #, percent-encoded separators, TAB, LF, space) as the return target of each flow that follows it (password, OTP, TOTP, SMS, hijack round trip, OAuth2 round trip), delivered as form field and as query, form and JSON modes, http and https site; Location / JSON location resolved with a WHATWG-faithful resolver; classes = (target class => response class) pairs",
+		Units:       c15Units,
+		Need:        []string{"target:off-site-host=>response:same-site", "target:same-site=>response:same-site"},
 		Assumptions: []string{"the resolver is conservative: unparsable values count as same-site", "honouring or ignoring a same-site value are both accepted (safety only)"},
 	})
 }
